@@ -47,6 +47,7 @@ type handler1 struct {
 	snRemoteAddr     net.Addr
 	mqttConn         *util.ConnWithContext
 	registeredTopics sync.Map // uint16 => string
+	pendingTopics    sync.Map // string => uint16 (REGISTER sent, no REGACK yet)
 	predefinedTopics topics.PredefinedTopics
 	keepAlive        uint16
 	clientID         string
@@ -343,9 +344,19 @@ func (h *handler1) handleBrokerPublish(ctx context.Context, mqPublish *mqPkts.Pu
 	var snPkt snPkts.Packet
 	var nextState transactionState
 	if needsRegister {
-		topicID, err := h.newTopicID()
-		if err != nil {
-			return err
+		// If a registration of the same topic is already in progress (a
+		// burst of messages on a new topic), reuse its TopicID: one topic
+		// must not get more TopicIDs.
+		var topicID uint16
+		if pendingID, ok := h.pendingTopics.Load(mqPublish.TopicName); ok {
+			topicID = pendingID.(uint16)
+		} else {
+			var err error
+			topicID, err = h.newTopicID()
+			if err != nil {
+				return err
+			}
+			h.pendingTopics.Store(mqPublish.TopicName, topicID)
 		}
 
 		// snPublish will be sent after REGACK is received
